@@ -481,6 +481,8 @@ Definition observe (o : outcome) (T clock : Z) (q : question) : oreply * Z :=
 Record event := {
   ev_server : Z; ev_tcp : bool; ev_backoff : Z; ev_timeout : Z; ev_qname : name; ev_idx : nat;
   ev_start : Z;                (* clock when the query was issued *)
+  ev_end : Z;                  (* clock when the reply / failure was observed *)
+  ev_left : nat;               (* candidate names not yet tried when the query was issued *)
   ev_obs : oreply              (* what came back *)
 }.
 
@@ -522,7 +524,7 @@ Definition step (sc : nat -> outcome) (c : cfg) (start : Z) (s : st) (e : env)
           let q := {| q_name := s_qname s1; q_class := c_rdclass c; q_type := c_rdtype c |} in
           let '(ob, clock2) := observe (sc (e_pos e)) T clock1 q in
           let ev := {| ev_server := sv_id ns; ev_tcp := tcp; ev_backoff := backoff; ev_timeout := T;
-                       ev_qname := s_qname s1; ev_idx := e_pos e; ev_start := clock1; ev_obs := ob |} in
+                       ev_qname := s_qname s1; ev_idx := e_pos e; ev_start := clock1; ev_end := clock2; ev_left := length (s_qnames s1); ev_obs := ob |} in
           let e2 := {| e_clock := clock2; e_pos := S (e_pos e); e_trace := e_trace e ++ [ev] |} in
           match query_result c s1 clock2 (Z.of_nat (e_pos e)) ob with
           | QCont s2 => inl (s2, e2)
@@ -733,7 +735,8 @@ Fixpoint map_opt {A B} (f : A -> option B) (l : list A) : option (list B) :=
   end.
 
 Definition server_of (o : obs) : option server :=
-  match o with L [I i; I m] => Some {| sv_id := i; sv_maxsize := bool_of m |} | _ => None end.
+  (* kinds of the harness: 0 Do53 address, 1 DoH URL, 2 scripted, 3 scripted always-max-size *)
+  match o with L [I i; I k] => Some {| sv_id := i; sv_maxsize := (k =? 1) || (k =? 3) |} | _ => None end.
 
 Definition optZ_of (o : obs) : option (option Z) :=
   match o with N => Some None | I z => Some (Some z) | _ => None end.
@@ -841,7 +844,7 @@ Definition run_body (rc : obs) (rqs script : list obs) (tail : obs) : obs :=
   | Some r, Some rqs, Some script, Some tail =>
       let sc := fun i => nth i script tail in
       let '(os, ps) := run_requests sc (slack (tail :: script) * (2 * length (r_servers r) + 2)) r rqs [] 0 0%nat in
-      L [L os; L ps]
+      L [L os; L ps; L []]   (* third component: transport anomalies seen by the harness, none expected *)
   | _, _, _, _ => E eBadCase
   end.
 End WithTable.
